@@ -324,14 +324,14 @@ Qed.
 (** an exact (quoted) keyword: one segment, [*] is an ordinary character *)
 Theorem exact_keyword_spec : forall pat t,
   kw_is_match KExact pat t = true <->
-  exists pre m post, t = pre ++ m ++ post /\ seg_eq (unescape_quotes pat) m = true.
+  exists pre m post, t = pre ++ m ++ post /\ seg_eq pat m = true.
 Proof.
   intros pat t. unfold kw_is_match, kw_captures. split.
-  - destruct (find_match (unescape_quotes pat) [] false t) as [caps|] eqn:E; [|discriminate].
+  - destruct (find_match pat [] false t) as [caps|] eqn:E; [|discriminate].
     intros _. apply find_match_sound in E.
     destruct E as [pre [m [t' [Ht [Hm _]]]]]. exists pre, m, t'. auto.
   - intros [pre [m [post [Ht Hm]]]].
-    destruct (find_match_complete (unescape_quotes pat) [] false t pre m post [] Ht Hm
+    destruct (find_match_complete pat [] false t pre m post [] Ht Hm
                 (sm_nil_free post)) as [caps' Hc].
     rewrite Hc. reflexivity.
 Qed.
